@@ -886,6 +886,10 @@ func parseShapes(csv *csv.File) []Shape {
 			log.Printf("Skipping shape because of missing keys %s", missingKeys)
 			continue
 		}
+		if shapePtLat == nil || shapePtLon == nil || shapePtSequence == nil {
+			log.Printf("Skipping shape point because of unparseable latitude, longitude or sequence")
+			continue
+		}
 
 		shapeIDToRowData[shapeID] = append(shapeIDToRowData[shapeID], ShapeRow{
 			ShapePtLat:        *shapePtLat,
